@@ -11,6 +11,7 @@ CONSTANTS
   Ats <- AtsBig
   Ranges = {1, 2, 3, 5}
   Funcs = {"count_over_time", "last_over_time", "first_over_time", "present_over_time"}
+  TsFuncs = {"timestamp"}
   SqRanges = {2, 4, 6}
   SqSteps = {0, 1, 2, 3}
   SqOffs <- SqOffsBig
